@@ -226,3 +226,13 @@ Definition pragma_ok (x : bool * Z * Z * bytes * Z * bool * bytes * Z * Z) : boo
   | r => st =? status_of r
   end.
 Definition check_pragma := mismatches pragma_ok.
+
+From V Require Import C16.ClosingTag.
+(* helpers.EscapeClosingTag: (slashTag, text, status, output) *)
+Definition closingtag_ok (c : bytes * bytes * Z * bytes) : bool :=
+  let '(tag, t, st, out) := c in
+  match EscapeClosingTag tag t with
+  | Ok o => (st =? 0) && zlist_eqb o out
+  | x => st =? status_of x
+  end.
+Definition check_closingtag := mismatches closingtag_ok.
